@@ -76,8 +76,10 @@ def make_ops(rng, cfg, profile, tier):
             ops.append({'op': 'SHARED_BETAS', 'a': [rng.randrange(4)]})
         elif r < 0.868:
             ops.append({'op': 'CATALOG_BETA', 'a': [rng.randrange(4)]})
-        elif r < 0.87:
+        elif r < 0.869:
             ops.append({'op': 'SINGULAR_REPORT', 'a': [rng.randrange(3)]})
+        elif r < 0.87:
+            ops.append({'op': 'RENAME_SHARED', 'a': [rng.randrange(4)]})
         elif r < 0.93:
             ops.append({'op': 'FIX', 'a': [rng.randrange(64), round(rng.uniform(-1, 1), 2),
                                            rng.choice([None, None, 'prefix', 'suffix'])]})
@@ -586,6 +588,38 @@ class Session:
             sim(b1, v1, want1, 'first model again')
             ctx.probe('two models sharing a parameter object')
             ctx.log(kind, order)
+        elif kind == 'RENAME_SHARED':
+            # the library's own renaming (rename_elementary with a prefix or a suffix) applied to a formula in which a
+            # sub-formula is used twice, for a list of names in which the new name of one parameter is the old name of
+            # another: a one-to-one renaming, which leaves every value unchanged
+            import biogeme.database as db
+            import biogeme.expressions as ex
+            from biogeme.expressions import TypeOfElementaryExpression as _T
+            mode = a[0]
+            pre, suf = ('alt_', None) if mode % 2 == 0 else (None, '_bis')
+            n1 = 'rn_b'
+            n2 = ('alt_' + n1) if pre else (n1 + '_bis')
+
+            def mk():
+                b_ = ex.Beta(n1, 0.3, None, None, 0)
+                a_ = ex.Beta(n2, -0.2, None, None, 0)
+                v_ = b_ * ex.Variable('x0') + a_
+                return (ex.Variable('one') * v_ - ex.log(1 + ex.exp(v_))) if mode < 2 else (v_ * v_ + v_)
+            d_ = db.Database('rn', self.table.copy())
+            base = [float(v) for v in mk().get_value_c(database=d_, prepare_ids=True)]
+            g = mk()
+            g.rename_elementary([n1, n2], prefix=pre, suffix=suf)
+            names_after = sorted(g.set_of_elementary_expression(_T.FREE_BETA))
+            want_names = sorted([(pre or '') + n1 + (suf or ''), (pre or '') + n2 + (suf or '')])
+            if names_after != want_names:
+                ctx.fail('I03.rename', f'rename_elementary({[n1, n2]}, prefix={pre!r}, suffix={suf!r}) on a formula that uses a '
+                                       f'sub-formula twice gives the parameters {names_after}, expected {want_names}')
+            got = [float(v) for v in g.get_value_c(database=d_, prepare_ids=True)]
+            for i_, (g_, w_) in enumerate(zip(got, base)):
+                if abs(g_ - w_) > 1e-12 * max(1.0, abs(w_)):
+                    ctx.fail('I03.rename', f'after the one-to-one renaming row {i_} evaluates to {g_!r}, before to {w_!r}')
+            ctx.probe('library renaming on a formula with a shared sub-formula')
+            ctx.log(kind, mode)
         elif kind == 'SINGULAR_REPORT':
             # a model that is almost not identified along one direction: the report names the parameters involved in
             # that direction - those whose component of the eigenvector exceeds the threshold, by name
